@@ -115,7 +115,8 @@ Answers == {A("Ok", 1, <<>>, ""), A("Ok", 6, <<>>, ""), A("Split", 0, <<1, 2>>, 
             A("Split", 0, <<13, 16>>, ""), A("Split", 0, <<11, 8, 10>>, ""), A("Split", 0, <<14, 13>>, ""),
             A("Err", 0, <<>>, "QueryTimeout"), A("Err", 0, <<>>, "RecordNotFound"),
             A("Err", 0, <<>>, "NotEnoughCopies"), A("Err", 0, <<>>, "RecordDoesNotMatch")}
-RetryCases == {[ans |-> a, natt |-> m] : a \in UNION {[1..len -> Answers] : len \in 1..2}, m \in 1..2}
+\* one scripted answer per allowed attempt (natt = 1: RetryStrategy::None, natt = 2: one retry)
+RetryCases == {[ans |-> a, natt |-> Len(a)] : a \in UNION {[1..len -> Answers] : len \in 1..2}}
 RetryStep(rc) == LET r == ClientGet(rc.ans, rc.natt, 1, 1) IN
                  [Base("ClientRetry") EXCEPT !.key = 1, !.ans = rc.ans, !.natt = rc.natt, !.o = r.o, !.used = r.used]
 DoClientRetry == /\ ~Record /\ n = 0 /\ g.called = {}
